@@ -131,6 +131,27 @@ def enumerate_cases(tier, shard=0, nshards=1):
                                    'cells': cells}
 
 
+    # whole literals at and beyond 2^53 WRITTEN AS FLOATS (scientific
+    # notation, trailing .0): floating-point numbers, so that L+1-L is 0 and
+    # L+1=L holds - whatever spelling of the same value is used
+    if shard == 0:
+        for L in ('1E16', '1E+16', '10000000000000000.0', '1e20',
+                  '9007199254740992.0', '2E16', '1.0E16', '100E14'):
+            for sm in ('1', '3'):
+                for t in (
+                        ['op', '-', ['op', '+', ['num', L], ['num', sm]],
+                         ['num', L]],
+                        ['op', '=', ['op', '+', ['num', L], ['num', sm]],
+                         ['num', L]],
+                        ['op', '-', ['op', '-', ['num', L], ['num', sm]],
+                         ['num', L]],
+                        ['op', '>', ['op', '+', ['num', sm], ['num', L]],
+                         ['num', L]],
+                        ['op', '=', ['op', '*', ['num', L], ['num', L]],
+                         ['op', '^', ['num', L], ['num', '2']]]):
+                    yield {'tree': t, 'text': '=' + R.render(t), 'cells': {}}
+
+
 # ------------------------------------------------------------------- sampling
 
 LITS = (['2', '3', '5', '7', '11', '13', '4', '10', '0', '1', '25', '007',
